@@ -88,6 +88,8 @@ class Task:
         c, ctx, ip = self.c, self.ctx, self.ip
         st = State()
         frame = st.push(self.info)
+        ctx.ip = ip
+        ctx.finfo0 = self.info
         args = {}
         for n, sh in self.inst.items():
             if isinstance(sh, Shared):
